@@ -205,7 +205,25 @@ func purityPool(samples map[string]*Msg, thorough bool) ([]string, []*Msg) {
 		bad.setElem("SenderDepositoryInstitution", "SenderShortName", "Bad*Name\n")
 		names = append(names, n+"#invalid")
 		pool = append(pool, bad)
-		if !thorough && len(pool) >= 16 {
+		// every tag of the sample with one element longer than its width / its declared length
+		k := 0
+		for _, tn := range sortedKeys(samples[n].Tags) {
+			tt := tagByName[tn]
+			k++
+			if !thorough && k%4 != 0 && tn != "UnstructuredAddenda" {
+				continue
+			}
+			vals := tt.Vals(samples[n].Tags[tn])
+			for i := range vals {
+				if i%2 == 0 || thorough || tn == "UnstructuredAddenda" {
+					ov := samples[n].Clone()
+					ov.Tags[tn] = tt.New(tt.Marker(samples[n].Tags[tn]), setAt(vals, i, vals[i]+"OVERLONG VALUE OVERLONG VALUE OVERLONG"))
+					names = append(names, fmt.Sprintf("%s#%s.%d-overlong", n, tn, i))
+					pool = append(pool, ov)
+				}
+			}
+		}
+		if !thorough && len(pool) >= 120 {
 			break
 		}
 	}
@@ -556,4 +574,13 @@ func init() {
 			}
 		}
 	}
+}
+
+func sortedKeys(m map[string]reflect.Value) []string {
+	var ks []string
+	for k := range m {
+		ks = append(ks, k)
+	}
+	sort.Strings(ks)
+	return ks
 }
